@@ -46,6 +46,22 @@ are the same comparison against that one expectation).  Decoration options the
 model does not read: `shared` (ONE decorator-factory object decorates the own and the twin function), `kwopt` (the
 seldom used keywords asyncio_fn= / allow_sync_call= are supplied; the asyncio_fn must never run).
 
+PREDECESSORS (`pred` x `gens` generations, `nwr`): the library identifies functions and instances in its tables by
+id() - DeduplicateDecorator.tasks is ONE table for all deduplicated functions keyed by (id(self.fn), key),
+acached_per_instance keys by id(self) and drops the entry from a weakref callback - and id() is unique among LIVE objects
+only.  Before the object under test is created the world lets predecessors live and die: `fn` = earlier decorated
+functions (bodies 7 / 8) installed under the same name on the same class (module level: re-defined), used through the
+observed receiver with the observed argument objects, one more task made by `.asynq(...)` and never awaited, then
+replaced; `inst` = earlier instances of the same classes that used the attribute with the observed argument objects and
+were dropped.  The observations must be those of a fresh world (the model does not read `pred`; theorem
+C09_predecessors_irrelevant says why the code can achieve this - every entry pins its owner, so a new object's address
+is the address of no entry's owner - and C09_pinned_needed what happens otherwise).  `nwr`: the generated classes
+declare `__slots__ = ()`, their instances cannot be weakly referenced: no difference for any decorator but
+acached_per_instance, which REFUSES such instances (weakref.ref raises TypeError before anything runs, every convention
+alike).  Those cases go to the driver mode `decoratorsNwr` and are judged by a DIRECT EXPECTATION (no theorem): CORR =
+every convention that is run ends in TypeError with an empty log; SPEC accepts that or the ordinary reference report
+(the conventions agree AND, if they answer, the body ran with the bound instance) and nothing else.
+
 KEYWORD NAMES: a..e and `fn`.  `def async_call(fn, *args, **kwargs)` (decorators.py:398) binds the callable to a
 positional-or-keyword parameter: `async_call(f, x, fn=v)` raises TypeError while f(x, fn=v) and f.asynq(x, fn=v) run the
 body - a GENUINE VIOLATION of C09 (the conventions disagree) for every body that accepts the keyword.  The model mirrors
@@ -92,6 +108,10 @@ HEADLINE = [
     "AsynqModel.Decorators.C09_second_call_receivers",
     "AsynqModel.Decorators.C09_other_keys_irrelevant_partial",
     "AsynqModel.Decorators.C09_own_entries",
+    # predecessors (objects that died before the one under test was created; id() reuse): entries that pin their owners
+    # cannot reach a function created later; needed: C09_pinned_needed (seeded C09-10, C09-11)
+    "AsynqModel.Decorators.C09_predecessors_irrelevant",
+    "AsynqModel.Decorators.C09_pinned_needed",
     # the open defect: a keyword argument called `fn` breaks async_call (for every cell) + the concrete counterexample
     "AsynqModel.Decorators.C09_async_call_kw_fn",
     "AsynqModel.Decorators.C09_async_call_fn_counterexample",
@@ -166,7 +186,12 @@ RULE = ("exhaustive product: 12 decorator kinds (undecorated, asynq, asynq pure,
         "(instance method | classmethod) x (via subclass | its instance) x generator / batch body x 5 histories x "
         "relation of the second call, the subclass overriding the attribute and delegating through super(); "
         "decoration options: one decorator-factory object shared by the own and the twin function, asyncio_fn= / "
-        "allow_sync_call= supplied, custom task keywords of asynq(pure=True); non-trivial = a body was "
+        "allow_sync_call= supplied, custom task keywords of asynq(pure=True); PREDECESSOR family: every cell x (earlier "
+        "decorated functions under the same name on the same class, used with the observed receiver and arguments, one task "
+        "never awaited, then replaced | earlier instances of the same classes, used and dropped) x number of generations "
+        "(2, 6; thorough 1, 2, 3, 6, 12) so that id() of the object under test can be that of a dead one, + every instance-"
+        "method cell with instances that cannot be weakly referenced (__slots__), alone and after 2 / 6 instance generations "
+        "/ 3 function generations, + 7 % / 5 % of the random calls; non-trivial = a body was "
         "entered by at least two conventions with a receiver or at least one argument; distinct by hash of the cell")
 TRUSTED = [
     "hand-written Lean model AsynqModel.Lib.Decorators (objects built by qcore.decorators.DecoratorBase.__init__/__get__, "
@@ -176,6 +201,11 @@ TRUSTED = [
     "Python harness checks/c09.py (class generation, token <-> object identity mapping; in the two-call conventions an "
     "exception raised while a future is being created is delivered where the future is awaited, so that both calls are made)",
     "qcore.decorators (compiled), qcore.caching.get_args_tuple, CPython descriptor protocol for function/staticmethod/classmethod",
+    "predecessor generations are a construction of the harness (World._hierarchy / _ghost_use); whether CPython hands a dead "
+    "object's address to the object under test is up to the allocator (observed: within 2-3 generations for decorator "
+    "objects and slot-less instances) - a quiet run says nothing was found under the addresses that WERE reused; "
+    "driver mode decoratorsNwr (Drv/Decorators.lean nwrReport / nwrClause): direct expectation for acached_per_instance on "
+    "instances that cannot be weakly referenced, no theorem speaks about it",
     "history events and the overriding subclass are constructions of the harness (World.event / aio_event / _make_override); "
     "HState (asyncio-mode flag, shadowed instance __dict__ entries) is the model's whole idea of what a use can leave behind, and "
     "no event of the model writes it: that the code leaves nothing behind (these two or anything else) is established by the run only",
@@ -234,6 +264,12 @@ ASSUMPTIONS = [
     "too): the C09_history_*_by_construction statements are not claims about the code; `use` / `aioSelf` degrade to a look-up / "
     "to nothing when the case passes no arguments (the call would BE the observed call); one decorator-factory object for several functions, asyncio_fn= / "
     "allow_sync_call=, custom task keywords are not inputs of the model",
+    "predecessors (`pred`, `gens`) and slot-only instances (`nwr`) are not inputs of the model; C09_predecessors_irrelevant is "
+    "stated over addresses (token 1 = address of the function under test) under the hypothesis Table.pinned (every entry's "
+    "owner is alive) that the CODE has to maintain - whether it does is the differential run's part (C09_pinned_needed: the two "
+    "ways it was broken by seeded changes); acached_per_instance refuses instances that cannot be weakly referenced (TypeError "
+    "in every convention: they agree, nothing runs) - accepted as the code's documented-by-behaviour restriction, judged by the "
+    "direct expectation of mode decoratorsNwr",
     "the truth value of receivers, the history of attribute look-ups, the class of the raised exception, a user task "
     "class and a user key function are not inputs of the model: its answer is the same for all of them (by "
     "construction - no theorem is claimed; the harness varies them on the real code)",
@@ -269,6 +305,15 @@ AIO_EVS = ("aioOk", "aioFail", "aioSelf")
 HISTS = [[e] for e in EVS] + [["use", "copy"], ["use", "deepcopy"], ["useThread", "copy"], ["helpers", "use", "gc"],
                                ["aioFail", "use"], ["aioOk", "aioFail", "aioSelf"], ["use", "aioSelf", "copy"],
                                ["dbg", "scoped", "use"], ["mocked", "use", "copy", "aioFail"], ["use", "copy", "bcopy"]]
+# PREDECESSORS (`pred`, `gens` generations): objects that lived and DIED before the object under test was created, so
+# that CPython may hand their address (`id()`) to it - whatever the library keyed by id() and did not clean up is found
+# again.  "fn": earlier decorated functions (other bodies, identities 7 / 8) installed under the same name on the same
+# class (module level: bound to the same variable), used with the observed receiver and argument objects, one more
+# task created by `.asynq(...)` and never awaited, then replaced; "inst": earlier instances of the same classes that
+# used the attribute with the observed argument objects and were dropped.  `nwr`: the generated classes declare
+# `__slots__ = ()` - their instances have no __dict__ and cannot be weakly referenced.
+PREDS = ["fn", "inst"]
+GHOST, GHOST_SYNC = 7, 8
 # conventions with two calls in flight at once: not run on override cases (Lean: Cv.inFlight)
 INFLIGHT = ("twin", "sibling", "siblingCall")
 # dimensions the model does not look at (it is the same for all of them): class of the exception a body raises,
@@ -368,7 +413,23 @@ def ovr_ok(case):
             (case["ft"] == "plain" or (case["ft"] == "classm" and case.get("rel", "args") == "args")))
 
 
+def eff_pred(case):
+    """the predecessors a case really has: instance generations need an instance receiver (else: function generations)"""
+    pred = case.get("pred")
+    if pred == "inst" and not (case["ft"] == "plain" and case["acc"] != "direct"):
+        return "fn"
+    return pred
+
+
+def nwr_refused(case):
+    """acached_per_instance keeps a weak reference to the instance: instances that cannot be weakly referenced are
+    refused (TypeError) by every convention alike - judged by the direct expectation of the driver mode decoratorsNwr"""
+    return bool(case.get("nwr")) and case["kind"] == "acpi" and case["acc"] != "direct"
+
+
 def valid(case):
+    if case.get("ovr") and (case.get("pred") or case.get("nwr")):
+        return False
     return not case.get("ovr") or ovr_ok(case)
 
 
@@ -449,6 +510,11 @@ def gen_opts(rng, p=0.3):
         o["tcls"] = 1
     if rng.random() < p / 3:
         o["kg"] = 1
+    if rng.random() < p / 4:
+        o["pred"] = rng.choice(PREDS)
+        o["gens"] = rng.choice([1, 2, 3, 5, 8])
+    if rng.random() < p / 6:
+        o["nwr"] = 1
     return o
 
 
@@ -501,6 +567,48 @@ def options_family():
     return cases
 
 
+def predecessor_family(tier, rng):
+    """every cell x (function generations | instance generations where there is an instance receiver) x number of
+    generations (2 and 6; thorough: + 1, 3, 12) on a call that passes positional, defaulted and keyword-only parameters,
+    body kind / signature / returns-raises / value kind rotating; instance methods again with instances that cannot be
+    weakly referenced (`nwr`), alone and after instance generations; + the call without arguments on `var`"""
+    cases = []
+    n = 0
+    sizes = [2, 6] if tier == "quick" else [1, 2, 3, 6, 12]
+    for kind, ft, acc in cells():
+        has_inst = ft == "plain" and acc != "direct"
+        for pred in PREDS:
+            if pred == "inst" and not has_inst:
+                continue
+            for gens in sizes:
+                n += 1
+                base = dict(kind=kind, ft=ft, acc=acc, body=BODIES[n % 3], sig=SIGS[(n // 3) % 3],
+                            raises=1 if n % 5 == 0 else 0, pred=pred, gens=gens, rel=RELS[n % 2])
+                if n % 4 == 0:
+                    base["vk"] = VKS[(n // 4) % len(VKS)]
+                if n % 6 == 0:
+                    base["hist"] = [["gc"], ["use"], ["helpers", "gc"]][(n // 6) % 3]
+                if n % 9 == 0:
+                    base["shared"] = 1
+                cases.append(dict(base, pos=[30, 31], kw=[[3, 32]]))
+                if gens == sizes[-1]:
+                    cases.append(dict(base, sig="var", pos=[], kw=[]))
+                if tier != "quick":
+                    pos, kw = gen_args(rng)
+                    cases.append(dict(base, pos=pos, kw=kw))
+        if has_inst:
+            for i, (pred, gens) in enumerate([(None, 0), ("inst", 2), ("inst", 6), ("fn", 3)]):
+                n += 1
+                base = dict(kind=kind, ft=ft, acc=acc, body=BODIES[n % 3], sig=SIGS[(n // 3) % 3],
+                            raises=1 if n % 5 == 0 else 0, nwr=1, rel=RELS[n % 2])
+                if pred:
+                    base.update(pred=pred, gens=gens)
+                cases.append(dict(base, pos=[30, 31], kw=[[3, 32]]))
+                if tier != "quick" or kind == "acpi":
+                    cases.append(dict(base, pos=[30], kw=[], hist=[["use"], ["gc"], [], ["copy"]][i]))
+    return cases
+
+
 def reserved_name_family(tier, rng):
     """a keyword argument called `fn` (the name of async_call's own first parameter): every decorator kind x (module
     function | instance method | classmethod via the subclass) x signature x body kind rotating; alone and next to other
@@ -535,6 +643,7 @@ def plan(tier, seed):
     cases += second_call_family(tier, random.Random(seed * 1000003 + 10))
     cases += history_family(tier, random.Random(seed * 1000003 + 11))
     cases += override_family(tier, random.Random(seed * 1000003 + 12))
+    cases += predecessor_family(tier, random.Random(seed * 1000003 + 14))
     for kind, ft, acc in cells():
         for falsy, pre in variants(tier, acc):
             for body in BODIES:
@@ -574,6 +683,12 @@ def _shrink(case):
     for k in ("ovr", "shared", "kwopt"):
         if case.get(k):
             yield {x: y for x, y in case.items() if x != k}
+    if case.get("pred"):
+        yield {x: y for x, y in case.items() if x not in ("pred", "gens")}
+        if case.get("gens", 3) > 1:
+            yield dict(case, gens=case.get("gens", 3) // 2)
+    if case.get("nwr"):
+        yield {x: y for x, y in case.items() if x != "nwr"}
     for i in range(len(case["pos"])):
         yield dict(case, pos=case["pos"][:i] + case["pos"][i + 1:])
     for i in range(len(case["kw"])):
@@ -608,7 +723,10 @@ def _neighbours(case, rng):
     for hist in HISTS:
         yield dict(case, hist=list(hist))
     for hist in OVR_HISTS:
-        yield dict(case, ovr=1, hist=list(hist))
+        yield {x: y for x, y in dict(case, ovr=1, hist=list(hist)).items() if x not in ("pred", "gens", "nwr")}
+    for pred in PREDS:
+        for gens in (2, 6):
+            yield dict(case, pred=pred, gens=gens)
     for body in BODIES:
         for sig in SIGS:
             for raises in (0, 1):
@@ -657,6 +775,10 @@ def signature(case, v):
         sig += "/override-via-super"
     if case.get("shared"):
         sig += "/shared-decorator-factory"
+    if case.get("pred"):
+        sig += "/after-dead-predecessor-" + eff_pred(case)
+    if case.get("nwr"):
+        sig += "/slots-instances"
     if case.get("kwopt"):
         sig += "/asyncio_fn+allow_sync_call"
     return sig
@@ -839,8 +961,9 @@ class World(object):
         self.log = []
         self.objtok = {}       # id(object) -> token
         self.keep = []
-        self.ret = {i: Tok(("ret", i)) for i in (1, 2, 3, 4)}
-        self.err = {i: ERRCLS[case.get("ek", "exc")]("e%d" % i) for i in (1, 2, 3, 4)}
+        self.ret = {i: Tok(("ret", i)) for i in (1, 2, 3, 4, GHOST, GHOST_SYNC)}
+        self.err = {i: ERRCLS[case.get("ek", "exc")]("e%d" % i) for i in (1, 2, 3, 4, GHOST, GHOST_SYNC)}
+        self.abandoned = []    # predecessors: tasks created by `.asynq(...)` and never awaited (run by `close`)
         vals = {}
         vk = case.get("vk", "tok")
         for n in (DB, DC):
@@ -879,6 +1002,9 @@ class World(object):
         self.bcopy = False     # event `bcopy`: use copy.copy of what attribute access returns
         kind, ft, acc = case["kind"], case["ft"], case["acc"]
         self.own = self._hierarchy(lib, 0)
+        if case.get("pred"):
+            del self.log[:]    # what the predecessors ran is their own business
+            del self.aiofn_calls[:]
         self.twin = self._hierarchy(lib, 1) if with_twin else {}
         for i, h in enumerate((self.own, self.twin)):
             off = TWIN * i
@@ -961,7 +1087,29 @@ class World(object):
             return factory("acpi", lambda: tools.acached_per_instance())(inner)
         raise ValueError(kind)
 
+    def _ghost_use(self, b, pos, kw, abandon=True):
+        """a predecessor is used the ways a callable is used, then one more task is created and never awaited"""
+        asynq = self.lib["asynq"]
+        self._quiet(lambda: b(*pos, **kw))
+        self._quiet(lambda: _asynq_attr(b)(*pos, **kw))
+        self._quiet(lambda: asynq.async_call(b, *pos, **kw))
+        del self.log[:]   # what a predecessor ran is its own business (and the entries keep the bound receiver alive)
+        del self.aiofn_calls[:]
+        if not abandon:
+            return
+        try:
+            t = _asynq_attr(b)(*pos, **kw)
+        except BaseException as e:  # noqa
+            if _fatal(e):
+                raise
+        else:
+            # (a strong reference to the TASK: it keeps the raw function and the arguments alive, never the decorator)
+            if isinstance(t, self.lib["FutureBase"]):
+                self.abandoned.append(t)
+            del self.log[:]
+
     def _hierarchy(self, lib, twin):
+        import gc
         case = self.case
         kind, ft, acc = case["kind"], case["ft"], case["acc"]
         bid, sbid = (3, 4) if twin else (1, 2)
@@ -971,12 +1119,26 @@ class World(object):
         else:
             recv = {"plain": "self", "static": None, "classm": "cls"}[ft]
         raises = 0 if twin else case["raises"]  # the twin's bodies always return
-        f = _make_function(self.env, "target", recv, case["sig"], case["body"], raises, bid, proxy)
-        sf = _make_function(self.env, "target", recv, case["sig"], "plain", raises, sbid, False)
-        dec = self._decorate(lib, f, sf, ft, "target")
+        pred = None if twin else eff_pred(case)
+        gens = int(case.get("gens", 3)) if pred else 0
+
+        def decorated(bid, sbid, raises):
+            f = _make_function(self.env, "target", recv, case["sig"], case["body"], raises, bid, proxy)
+            sf = _make_function(self.env, "target", recv, case["sig"], "plain", raises, sbid, False)
+            return self._decorate(lib, f, sf, ft, "target")
+
+        vpos = [self.vals[n] for n in case["pos"]]
+        vkw = {NAMES[n]: self.vals[v] for n, v in case["kw"]}
         if acc == "direct":
-            return {"fn": dec}
-        mdict, cdict = {}, {"target": dec}
+            if pred == "fn":
+                # earlier functions bound to the same name: used, one task abandoned, then re-defined
+                for _ in range(gens):
+                    self._ghost_use(decorated(GHOST, GHOST_SYNC, 0), vpos, vkw)
+                    gc.collect(1)
+            return {"fn": decorated(bid, sbid, raises)}
+        mdict, cdict, sdict = {}, {}, {}
+        if pred != "fn":
+            cdict["target"] = decorated(bid, sbid, raises)
         if case.get("falsy"):
             # receivers that are FALSY: empty-container-like instances, classes whose metaclass says False
             mdict["__bool__"] = lambda cls: False
@@ -988,9 +1150,12 @@ class World(object):
                 d["__repr__"] = lambda x: "<receiver>"
                 d["__eq__"] = lambda x, y: x is y
                 d["__ne__"] = lambda x, y: x is not y
+        if case.get("nwr"):
+            # instances without __dict__ that cannot be weakly referenced
+            cdict["__slots__"] = ()
+            sdict["__slots__"] = ()
         meta = type("Meta", (type,), mdict) if mdict else type
         Base = meta("Base", (object,), cdict)
-        sdict = {}
         if case.get("ovr") and not twin:
             # the subclass OVERRIDES the attribute (decorated the same way) and delegates through super()
             holder = []
@@ -999,11 +1164,45 @@ class World(object):
             osf = _make_override(self.env, "target", recv, case["sig"], kind, 6, True)
             sdict["target"] = self._decorate(lib, of, osf, ft, "target")
         Sub = meta("Sub", (Base,), sdict)
-        if sdict:
+        if "target" in sdict:
             holder.append(Sub)
+
+        def through(inst, subinst):
+            """(callable, positional arguments) of the observed access path with these instances"""
+            b = {"inst": inst, "cls": Base, "subInst": subinst, "subCls": Sub}[acc].target
+            pos = list(vpos)
+            if ft == "plain" and acc in ("cls", "subCls"):
+                pos = [inst if acc == "cls" else subinst] + pos
+            return b, pos
+
+        if pred == "inst":
+            # earlier instances of the same classes: they used the attribute with the observed argument objects and died
+            # (the task that is never awaited keeps its arguments - the instance - alive: only the first generation
+            # leaves one behind); every other generation dies as part of a reference CYCLE (freed - and its weakref
+            # callbacks run - by the garbage collector, not by the reference count)
+            for g in range(gens):
+                gi, gs = Base(), Sub()
+                b, pos = through(gi, gs)
+                self._ghost_use(b, pos, vkw, abandon=(g == 0))
+                cyclic = g % 2 == 1 and not case.get("nwr")
+                if cyclic:
+                    gi.c09_cycle, gs.c09_cycle = gs, gi
+                del b, pos, gi, gs
+                if cyclic:
+                    gc.collect(1)
         h = {"Base": Base, "Sub": Sub, "inst": Base(), "subinst": Sub()}
         if not twin:
             h["inst2"], h["subinst2"] = Base(), Sub()
+        if pred == "fn":
+            # earlier functions installed under the same name on the same class, used through the observed receiver
+            for _ in range(gens):
+                Base.target = decorated(GHOST, GHOST_SYNC, 0)
+                b, pos = through(h["inst"], h["subinst"])
+                self._ghost_use(b, pos, vkw)
+                del b, pos
+                del Base.target
+                gc.collect(1)
+            Base.target = decorated(bid, sbid, raises)
         if not twin:
             # earlier look-ups of the same attribute through other access paths (results kept alive, never called)
             for a in case.get("pre", []):
@@ -1215,6 +1414,14 @@ class World(object):
     def close(self):
         while self.cleanup:
             self.cleanup.pop()()
+        if self.abandoned:
+            # the abandoned tasks of the predecessors are finished now (nothing of this world stays in the library's
+            # tables); what they log is not part of the observation
+            n = len(self.log)
+            for t in self.abandoned:
+                self._quiet(lambda: t)
+            del self.abandoned[:]
+            del self.log[n:]
 
     def tok(self, o):
         if o is None:
@@ -1504,8 +1711,8 @@ def run_case(case):
 
     lib = {"asynq": asynq, "decorators": decorators, "tools": tools, "DebugBatchItem": DebugBatchItem,
            "FutureBase": FutureBase}
-    lines = ["(case decorators %d %s %s %s %s %d %s (%s) (%s) %d (%s) %s %s (%s) %d)" % (
-        case["id"], case["kind"], case["ft"], case["acc"], case["body"], case["raises"], case["sig"],
+    lines = ["(case %s %d %s %s %s %s %d %s (%s) (%s) %d (%s) %s %s (%s) %d)" % (
+        "decoratorsNwr" if nwr_refused(case) else "decorators", case["id"], case["kind"], case["ft"], case["acc"], case["body"], case["raises"], case["sig"],
         " ".join(str(x) for x in case["pos"]), " ".join("(%d %d)" % (n, v) for n, v in case["kw"]),
         1 if case.get("falsy") else 0, " ".join(case.get("pre", [])), case.get("rel", "args"), case.get("vk", "tok"),
         " ".join(case.get("hist") or []), 1 if case.get("ovr") else 0)]
@@ -1528,7 +1735,9 @@ def run_case(case):
              "values=" + case.get("vk", "tok"), "error-class=" + case.get("ek", "exc"),
              "user-task-cls=%d" % (1 if case.get("tcls") else 0), "user-key-fn=%d" % (1 if case.get("kg") else 0),
              "history=%s" % ("+".join(case.get("hist") or []) or "none"), "override=%d" % (1 if case.get("ovr") else 0),
-             "shared-factory=%d" % (1 if case.get("shared") else 0), "asyncio_fn+allow_sync_call=%d" % (1 if case.get("kwopt") else 0)]
+             "shared-factory=%d" % (1 if case.get("shared") else 0), "asyncio_fn+allow_sync_call=%d" % (1 if case.get("kwopt") else 0),
+             "predecessors=%s" % ("%s*%d" % (eff_pred(case), min(int(case.get("gens", 3)), 8)) if case.get("pred") else "none"),
+             "slots-instances=%d" % (1 if case.get("nwr") else 0)]
     nontrivial = None
     if entered >= 2:
         nontrivial = hashlib.sha1(json.dumps({k: v for k, v in case.items() if k != "id"}, sort_keys=True).encode()).hexdigest()[:16]
